@@ -370,6 +370,44 @@ pub fn run() -> i32 {
     });
     ctx.note("kx_arbitrary_peers", json!(peers.len()));
     ctx.absorb("kx-arbitrary-peers", st);
+    {
+        let a: B32 = karr(seed ^ 0xd, 2);
+        let b: B32 = karr(seed ^ 0xd, 3);
+        let (pa, pb) = (sodium::scalarmult_base(&a), sodium::scalarmult_base(&b));
+        let twist: B32 = le_add(&[0u8; 32], 2);
+        let mut t: Vec<crate::purity::Entry> = vec![];
+        for (nm, sk, pk) in [("scalarmult(a,B)", a, pb), ("scalarmult(b,A)", b, pa), ("scalarmult(a,u=2)", a, twist), ("scalarmult(b,u=2)", b, twist)] {
+            t.push((nm, Box::new(move || dry_mult(&sk, &pk).map(|x| x.to_vec()).unwrap_or_default())));
+        }
+        t.push(("scalarmult_base(a)", Box::new(move || {
+            let mut q = [0u8; 32];
+            crypto_scalarmult_base(&mut q, &a);
+            q.to_vec()
+        })));
+        t.push(("scalarmult_base(b)", Box::new(move || {
+            let mut q = [0u8; 32];
+            crypto_scalarmult_base(&mut q, &b);
+            q.to_vec()
+        })));
+        t.push(("beforenm(B,a)", Box::new(move || crypto_box_beforenm(&pb, &a).to_vec())));
+        t.push(("beforenm(A,b)", Box::new(move || crypto_box_beforenm(&pa, &b).to_vec())));
+        t.push(("kx_client(a;B)", Box::new(move || {
+            let (mut rx, mut tx) = ([0u8; 32], [0u8; 32]);
+            let _ = crypto_kx_client_session_keys(&mut rx, &mut tx, &pa, &a, &pb);
+            [rx, tx].concat()
+        })));
+        t.push(("kx_server(b;A)", Box::new(move || {
+            let (mut rx, mut tx) = ([0u8; 32], [0u8; 32]);
+            let _ = crypto_kx_server_session_keys(&mut rx, &mut tx, &pb, &b, &pa);
+            [rx, tx].concat()
+        })));
+        t.push(("kx_client(b;A)", Box::new(move || {
+            let (mut rx, mut tx) = ([0u8; 32], [0u8; 32]);
+            let _ = crypto_kx_client_session_keys(&mut rx, &mut tx, &pb, &b, &pa);
+            [rx, tx].concat()
+        })));
+        crate::purity::triples(&mut ctx, "C05", "C05.x25519", t);
+    }
     ctx.require_outcome("mult==libsodium");
     ctx.require_outcome("mult==0(low-order)");
     ctx.require_outcome("kx==libsodium");
